@@ -70,11 +70,13 @@ def lane_jobs(quick):
             J.append(Job("A", lambda conv=conv, a=a, b=b, ch=ch: LanePathInst(
                 "AXI%sConverter(%d->%d)/%s" % (conv.capitalize(), a, b, ch), conv, ch, a, b), max_states=ms))
     cyc = 3000 if quick else 30000
-    for conv, a, b in (("up", 32, 64), ("down", 64, 32), ("up", 32, 128), ("down", 128, 32), ("up", 64, 128),
-                       ("down", 128, 64)) + (() if quick else (("up", 32, 256), ("down", 256, 32))):
+    for conv, a, b, via in (("up", 32, 64, "direct"), ("down", 64, 32, "AXIConverter"), ("up", 32, 128, "AXIConverter"),
+                            ("down", 128, 32, "direct"), ("up", 64, 128, "direct"), ("down", 128, 64, "direct"),
+                            ("up", 8, 64, "direct"), ("down", 256, 32, "AXIConverter")) + (
+            () if quick else (("up", 32, 256, "direct"), ("down", 1024, 128, "direct"), ("up", 128, 1024, "AXIConverter"))):
         for ch in ("w", "r"):
-            J.append(Job("B", lambda conv=conv, a=a, b=b, ch=ch: LanePathInst(
-                "AXI%sConverter(%d->%d)/%s" % (conv.capitalize(), a, b, ch), conv, ch, a, b), cycles=cyc, runs=1))
+            J.append(Job("B", lambda conv=conv, a=a, b=b, ch=ch, via=via: LanePathInst(
+                c10lib.conv_name(conv, a, b, None, via) + "/" + ch, conv, ch, a, b, via=via), cycles=cyc, runs=1))
     return J
 
 
@@ -84,14 +86,38 @@ def jobs(tier):
     return b2b_box_jobs(quick) + conv_jobs(quick) + b2b_random_jobs(quick) + lane_jobs(quick)
 
 
-CONVS = (("up", 32, 64), ("up", 64, 128), ("up", 32, 128), ("up", 32, 256),
-         ("down", 64, 32), ("down", 128, 64), ("down", 128, 32), ("down", 256, 32))
+# (kind, dw_from, dw_to, options).  Ratios 2/4/8 in both directions, widths up to 1024 bits, instances built through
+# the AXIConverter selection glue, the identity case of that glue, and differing address widths on the two sides.
+CONVS = (("up", 32, 64, {}), ("up", 64, 128, {"via": "AXIConverter"}), ("up", 32, 128, {}), ("up", 32, 256, {"via": "AXIConverter"}),
+         ("down", 64, 32, {}), ("down", 128, 64, {"via": "AXIConverter"}), ("down", 128, 32, {}), ("down", 256, 32, {"via": "AXIConverter"}),
+         ("down", 256, 64, {}), ("up", 8, 64, {}), ("down", 1024, 512, {"via": "AXIConverter"}), ("up", 512, 1024, {}),
+         ("same", 64, 64, {"via": "AXIConverter"}), ("up", 32, 64, {"aw_to": 40}), ("down", 128, 32, {"aw_to": 40}))
+E2E = (("up", 32, 64, {}), ("up", 32, 128, {"via": "AXIConverter"}), ("down", 64, 32, {"via": "AXIConverter"}),
+       ("down", 128, 32, {}), ("down", 256, 32, {}), ("up", 16, 128, {}))
+E2E_THOROUGH = (("up", 64, 128, {}), ("down", 128, 64, {}), ("up", 32, 256, {}), ("down", 256, 64, {"via": "AXIConverter"}),
+                ("down", 64, 8, {}), ("up", 8, 16, {"via": "AXIConverter"}))
+
+
+def conv_by_name(name):
+    for (kind, a, b, o) in CONVS:
+        ca = ConvArith(kind, a, b, **o)
+        if ca.name == name:
+            return ca
+    return None
+
+
+def e2e_by_name(name):
+    for (kind, a, b, o) in E2E + E2E_THOROUGH:
+        e = ConvE2E(kind, a, b, **o)
+        if e.name == name:
+            return e
+    return None
 
 
 def conv_jobs(quick):
-    J = [Job("C", lambda kind=kind, a=a, b=b: ConvArith(kind, a, b)) for (kind, a, b) in CONVS]
-    for (kind, a, b) in (CONVS[0], CONVS[2], CONVS[4], CONVS[6]) if quick else CONVS:
-        J.append(Job("E", lambda kind=kind, a=a, b=b: ConvE2E(kind, a, b)))
+    J = [Job("C", lambda kind=kind, a=a, b=b, o=o: ConvArith(kind, a, b, **o)) for (kind, a, b, o) in CONVS]
+    for (kind, a, b, o) in E2E + (() if quick else E2E_THOROUGH):
+        J.append(Job("E", lambda kind=kind, a=a, b=b, o=o: ConvE2E(kind, a, b, **o)))
     return J
 
 
@@ -214,6 +240,7 @@ def correspond(ctx):
     ]
     dis = constants_check(ctx) + run_corpus(ctx)
     dis += list(run_jobs(ctx, ctx.jobs)) + spec_crosscheck(ctx)
+    ctx.c10_all_dis = list(dis)
     ctx.cov.notes.append("mode A on AXIBurst2Beat uses a state-dependent alphabet: all requests of the box are offered "
                          "in the clean idle state, only beat.ready varies while the master holds a request; idle states "
                          "with a stale offset (reachable only after an illegal burst) get a reduced request alphabet")
@@ -222,19 +249,27 @@ def correspond(ctx):
 
 def search(ctx, disagreements, proof_info):
     """Failing-input search with the model-independent oracles."""
+    # the runner hands over only the machine-style Disagreement objects; the dict-style ones (converter arithmetic,
+    # oracle hits, exceptions) were kept by correspond()
+    disagreements = list(getattr(ctx, "c10_all_dis", [])) or list(disagreements)
     deadline = time.time() + (60 if ctx.tier == "quick" else 600)
     # 1. converters: the byte-set oracle fired during the arithmetic differential
     for d in disagreements:
-        if isinstance(d, dict) and d.get("kind", "").startswith("monitor:") and "request" in d:
+        if isinstance(d, dict) and d.get("kind", "").startswith("monitor:") and (
+                "request" in d or d.get("passthrough") or "e2e" in d):
             return d
     # 1b. converters whose arithmetic disagrees with the model: sweep the byte-preserving region with the oracle
     import random
     for d in disagreements:
         if isinstance(d, dict) and d.get("kind") == "conv-arith":
-            for (kind, a, b) in CONVS:
-                ca = ConvArith(kind, a, b)
-                if ca.name != d["instance"]:
+            for ca in [conv_by_name(d["instance"].split(":")[-1])]:
+                if ca is None:
                     continue
+                got = ca.impl(tuple(d["request"]), d.get("channel", "aw"))
+                m = ca.oracle(tuple(d["request"]), got)
+                if m:
+                    return {"instance": ca.name, "channel": d.get("channel", "aw"), "request": d["request"],
+                            "forwarded": list(got), "monitor": m}
                 rng = random.Random(ctx.seed + 17)
                 for r in c10lib.conv_supported_requests(rng, ca, 4000):
                     for ch in ("aw", "ar"):
@@ -338,48 +373,41 @@ def probes(ctx):
 
 
 def replay(ctx, payload):
+    def verdict(m, what):
+        if m:
+            print(m)
+            print("VIOLATION property=%s replay=(replayed)" % ctx.prop)
+            return 1
+        print("%s no longer violates the property on the current tree" % what)
+        return 0
     fi = payload.get("failing_input") or {}
-    if "e2e" in fi:               # end-to-end burst through a converter
-        for (kind, a, b) in CONVS:
-            e = ConvE2E(kind, a, b)
-            if e.name == fi.get("instance"):
-                if fi["e2e"] == "write":
-                    m = e.run_write(tuple(fi["request"]), [tuple(x) for x in fi["wbeats"]], fi["stall_seed"])
-                else:
-                    m = e.run_read(tuple(fi["request"]), fi["stall_seed"])
-                if m:
-                    print(m)
-                    print("VIOLATION property=%s replay=(replayed)" % ctx.prop)
-                    return 1
-                print("burst no longer violates the property on the current tree")
-                return 0
-        print("instance %r not found" % fi.get("instance"))
-        return 2
-    if "request" in fi:           # converter arithmetic
-        for (kind, a, b) in CONVS:
-            ca = ConvArith(kind, a, b)
-            if ca.name == fi.get("instance"):
-                got = ca.impl(tuple(fi["request"]), fi.get("channel", "aw"))
-                m = ca.oracle(tuple(fi["request"]), got)
-                if m:
-                    print(m)
-                    print("VIOLATION property=%s replay=(replayed)" % ctx.prop)
-                    return 1
-                print("request no longer violates the property on the current tree")
-                return 0
-        print("instance %r not found" % fi.get("instance"))
-        return 2
     name = fi.get("instance", "")
+    if "e2e" in fi:               # end-to-end burst(s) through a converter
+        e = e2e_by_name(name)
+        if e is None:
+            print("instance %r not found" % name)
+            return 2
+        return verdict(e.run_history(fi.get("history") or [fi]), "burst")
+    if fi.get("passthrough"):
+        import random
+        ca = conv_by_name(name)
+        if ca is None:
+            print("instance %r not found" % name)
+            return 2
+        rng = random.Random(1)
+        return verdict(next((m for m in (ca.passthrough(rng) for _ in range(400)) if m), None), "pass-through")
+    if "request" in fi:           # converter arithmetic
+        ca = conv_by_name(name)
+        if ca is None:
+            print("instance %r not found" % name)
+            return 2
+        got = ca.impl(tuple(fi["request"]), fi.get("channel", "aw"))
+        return verdict(ca.oracle(tuple(fi["request"]), got), "request")
     if name.startswith("Burst2Beat/aw12/caps=") or name.startswith("corpus/"):
         caps = tuple(int(c) for c in name.split("=")[1]) if "=" in name else ALL
         inst = B2BInst(name, aw=12, caps=caps)
         from explore import replay_with_monitor
         r = replay_with_monitor(inst, [tuple(l) for l in fi.get("trace", [])])
-        if r:
-            print("cycle %d: %s" % r)
-            print("VIOLATION property=%s replay=(replayed)" % ctx.prop)
-            return 1
-        print("trace no longer violates the property on the current tree")
-        return 0
+        return verdict("cycle %d: %s" % r if r else None, "trace")
     from explore import generic_replay
     return generic_replay(ctx, payload, jobs("thorough"))
